@@ -1,6 +1,7 @@
 /- Helper lemmas for Props/C18.lean -/
 import XsdataModel.Code.PycodeWF
 import XsdataModel.Props.C05Float
+import XsdataModel.Proofs.PycodeDec
 
 namespace Xs.Code
 open Py
@@ -58,6 +59,13 @@ theorem pyEq_qname (t : Str) : pyEq (.qname t) (.qname t) = true := by
   simp [pyEq, leafEq, numOf]
 theorem pyEq_enum (c : ClsRef) (m : Str) : pyEq (.enum c m) (.enum c m) = true := by
   simp [pyEq, leafEq, numOf]
+theorem pyEq_decimal (d : Xs.Conv.Dec) (r r' : Str) (h : notNan (some (numOfDec d)) = true) :
+    pyEq (.decimal d r) (.decimal d r') = true := by
+  simp [pyEq, leafEq, numOf, NumV.eq_self h]
+
+theorem decimalName_builtin : Tables.builtinNames.contains Tables.decimalName = false ∧
+    (decimalT.module == builtinsMod) = false := by decide
+
 theorem pyEq_opaque (c : ClsRef) (cal : List Str) (ar : Str) (n : Option NumV) (h : notNan n = true) :
     pyEq (.opaque c cal ar n) (.opaque c cal ar n) = true := by
   cases n with
@@ -338,6 +346,12 @@ theorem rt (W : World) (env : Env) : (v : Val) → RT W env v
       have hres : resolve W env [qnameCallee] = .ok qnameT :=
         henv ([qnameCallee], qnameT) (by simp [render, PyExpr.refs])
       exact ⟨.qname t, by simp [render, eval, hres, decodeDq_jsonBody t], pyEq_qname t, by simp [hashable]⟩
+  | .decimal d r => fun _ hok henv => by
+      have hp : notNan (some (numOfDec d)) = true ∧ r = decRepr d := by simpa [valOK] using hok
+      have hres : resolve W env [Tables.decimalName] = .ok decimalT :=
+        henv ([Tables.decimalName], decimalT) (by simp [render, PyExpr.refs])
+      have hrd : readDecimal r = some d := by rw [hp.2]; exact readDecimal_decRepr d
+      exact ⟨.decimal d r, by simp [render, eval, hres, hrd], pyEq_decimal d r r hp.1, by simp [hashable]⟩
   | .opaque c callee args n => fun _ hok henv => by
       have hp : notNan n = true ∧ callee = c.path := by simpa [valOK] using hok
       have hres : resolve W env callee = .ok c :=
@@ -593,6 +607,7 @@ theorem refs_sub_types : (e : PyExpr) → ∀ pc ∈ e.refs, pc.2 ∈ e.types
   | .floatCall _ _, pc, h => by simp [PyExpr.refs] at h; simp [PyExpr.types, h]
   | .qnameCall _, pc, h => by simp [PyExpr.refs] at h; simp [PyExpr.types, h]
   | .opaqueCall _ _ _ _, pc, h => by simp [PyExpr.refs] at h; simp [PyExpr.types, h]
+  | .decimalCall _ _, pc, h => by simp [PyExpr.refs] at h; simp [PyExpr.types, h]
   | .enumRef _ _, pc, h => by simp [PyExpr.refs] at h; simp [PyExpr.types, h]
   | .call c kws, pc, h => by
       simp only [PyExpr.refs, List.mem_cons] at h
@@ -681,6 +696,10 @@ theorem refs_good (W : World) : (v : Val) → RefsGood W v
       simp [render, PyExpr.refs] at h
       subst h
       exact ⟨by simp [qnameCallee_eq]; rfl, reachable_single W _ _, Or.inl (by simpa using qname_not_builtin)⟩
+  | .decimal d r => fun _ _ pc h => by
+      simp [render, PyExpr.refs] at h
+      subst h
+      exact ⟨rfl, reachable_single W _ _, Or.inl (by simpa using decimalName_builtin.2)⟩
   | .opaque c callee args n => fun hwf hok pc h => by
       simp [render, PyExpr.refs] at h
       subst h
@@ -791,6 +810,9 @@ theorem no_risk (W : World) : (v : Val) → NoRisk W v
       obtain ⟨_, hrt⟩ := readFloat_repr (by simpa [domOK] using hok)
       cases hf : f64Finite x <;> simp [render, hf, PyExpr.syntaxRisk, hrt]
   | .opaque _ _ _ _ => fun _ => by simp [render, PyExpr.syntaxRisk]
+  | .decimal d r => fun hok => by
+      have hp : notNan (some (numOfDec d)) = true ∧ r = decRepr d := by simpa [domOK] using hok
+      simp [render, PyExpr.syntaxRisk, hp.2, readDecimal_decRepr d]
   | .enum _ m => fun hok => by
       have hn : enumNameOK m = true := by simpa [domOK] using hok
       simp [render, PyExpr.syntaxRisk, hn]
@@ -846,6 +868,7 @@ theorem valOK_of_dom (W : World) : (v : Val) → domOK W v = true → initFalseA
   | .enum _ _, hd, _ => by simpa [valOK, domOK] using hd
   | .float _ _, hd, _ => by simpa [valOK, domOK] using hd
   | .opaque _ _ _ _, hd, _ => by simpa [valOK, domOK] using hd
+  | .decimal _ _, hd, _ => by simpa [valOK, domOK] using hd
   | .set _ xs, hd, hi => by
       simp only [domOK, Bool.and_eq_true] at hd
       simp only [valOK, Bool.and_eq_true]
